@@ -134,6 +134,14 @@ def _judge(case, ctx, spec, op, dense, part=None):
         if q == "root_decomposition":
             return op.root_decomposition(method=method).root
         if q == "root_inv_decomposition":
+            # (dense operators only: supplied start vectors are C09's subject, and classes with exact inverse roots of their own do
+            # not produce the probe dimension the post-processing of several vectors expects - outside this property's quantifier)
+            niv = (case["rseed"] >> 6) % 4 if method == "lanczos" and part is None and spec["cls"] in ("Dense", "User") else 0
+            if niv in (1, 3):
+                # supplied start vector(s): one column (no probe dimension in the Lanczos result) or several
+                iv = torch.randn(*batch, n, niv, generator=torch.Generator().manual_seed(case["rseed"]), dtype=torch.float64).to(dt)
+                info.add(f"initial_vectors:{niv}")
+                return op.root_inv_decomposition(initial_vectors=iv, test_vectors=iv, method=method).root
             return op.root_inv_decomposition(method=method).root
         if q == "eigh":
             return op.eigh()
@@ -222,6 +230,30 @@ def _judge(case, ctx, spec, op, dense, part=None):
         if ok:
             ctx.ok(oname, key + f"|up{int(upper)}", n >= 2, sample=dict(spec=zoo.class_path(spec, 3), query=oname, upper=upper, err=rel(rec_, A64)))
         return
+    if q == "root_inv_decomposition" and pathk == "lanczos" and part is None and dt == torch.float64 and kappa <= 100 and n >= 2 \
+            and any((k_[0] if isinstance(k_, tuple) else k_) == "root_decomposition" for k_ in getattr(op, "_memoize_cache", {})):
+        # the Lanczos run behind an inverse root leaves the ROOT of the operator in its cache: what root_decomposition() answers next
+        with settings_stack(cfg, n), warnings.catch_warnings():
+            warnings.simplefilter("ignore")
+            side, exs = compare.attempt(lambda: _dense(op.root_decomposition().root).detach().to(torch.float64))
+        ctx.stat("side_effect_roots_checked")
+        sname = oname + ".side_root"
+        if exs is not None:
+            if not compare.explicit_unsupported(exs):
+                ctx.fail(sname, "exception", exc=exs, **kw)
+        elif side.dim() < 2 or tuple(side.shape[:-1]) != (*batch, n):
+            ctx.fail(sname, "shape", detail=f"cached root of shape {tuple(side.shape)} for operator {tuple(A64.shape)}", **kw)
+        elif not torch.isfinite(side).all():
+            ctx.fail(sname, "value", detail="non-finite cached root", **kw)
+        else:
+            Us, Ss, _ = torch.linalg.svd(side, full_matrices=False)
+            ks = (Ss > 1e-8 * Ss[..., :1].clamp_min(1e-300)).to(torch.float64)
+            Ps = (Us * ks.unsqueeze(-2)) @ Us.mT
+            es = float((side @ side.mT - Ps @ A64 @ Ps).abs().max()) / scale
+            if not es <= 5e-2:
+                ctx.fail(sname, "value", err=es, detail=f"the root cached by the inverse-root run differs from the compression of A onto its range by {es:.2e}", **kw)
+            else:
+                ctx.ok(sname, key, n >= 2)
     if q in ("root_decomposition", "root_inv_decomposition"):
         R = out.to(torch.float64)
         if R.dim() < 2 or R.shape[-2] != n or tuple(R.shape[:-2]) != tuple(batch):
